@@ -12,6 +12,7 @@ import (
 	"fmt"
 	"sort"
 	"strings"
+	"sync"
 	"testing"
 
 	"github.com/koordinator-sh/koordinator/apis/thirdparty/scheduler-plugins/pkg/apis/scheduling/v1alpha1"
@@ -26,6 +27,7 @@ type c15Scen struct {
 }
 
 type c15World struct {
+	mu  sync.Mutex // (real mutex, never held across a call into the code under test: only keeps the free-running race pass from corrupting the bookkeeping maps)
 	qt  *quotaTopology
 	ref map[string]*c15Q
 	acc []string // accepted requests (labels), any order
@@ -45,9 +47,9 @@ func (w *c15World) submit(op c15Op) bool {
 		}
 		submitted = o
 	case "update":
-		cur := w.ref[op.Name]
+		cur := w.get(op.Name)
 		if cur == nil {
-			w.rej = append(w.rej, op.label+"(404)")
+			w.note(false, op.label+"(404)")
 			return false
 		}
 		o := cur.obj.DeepCopy()
@@ -55,18 +57,20 @@ func (w *c15World) submit(op c15Op) bool {
 		err = w.qt.ValidUpdateQuota(cur.obj, o)
 		submitted = o
 	case "delete":
-		cur := w.ref[op.Name]
+		cur := w.get(op.Name)
 		if cur == nil {
-			w.rej = append(w.rej, op.label+"(404)")
+			w.note(false, op.label+"(404)")
 			return false
 		}
 		err = w.qt.ValidDeleteQuota(cur.obj)
 	}
 	if err != nil {
-		w.rej = append(w.rej, op.label)
+		w.note(false, op.label)
 		return false
 	}
-	w.acc = append(w.acc, op.label)
+	w.note(true, op.label)
+	w.mu.Lock()
+	defer w.mu.Unlock()
 	if op.Kind == "delete" {
 		delete(w.ref, op.Name)
 	} else {
@@ -75,6 +79,22 @@ func (w *c15World) submit(op c15Op) bool {
 		w.ref[op.Name] = q
 	}
 	return true
+}
+
+func (w *c15World) get(name string) *c15Q {
+	w.mu.Lock()
+	defer w.mu.Unlock()
+	return w.ref[name]
+}
+
+func (w *c15World) note(accepted bool, label string) {
+	w.mu.Lock()
+	defer w.mu.Unlock()
+	if accepted {
+		w.acc = append(w.acc, label)
+	} else {
+		w.rej = append(w.rej, label)
+	}
 }
 
 func c15SchedBuild(sc c15Scen) *c15World {
